@@ -14,10 +14,11 @@ type zzModel struct {
 	kv    map[string][]byte
 	bal   uint64
 	nonce uint64
+	code  []byte
 }
 
 func (m zzModel) clone() zzModel {
-	c := zzModel{kv: map[string][]byte{}, bal: m.bal, nonce: m.nonce}
+	c := zzModel{kv: map[string][]byte{}, bal: m.bal, nonce: m.nonce, code: m.code}
 	for k, v := range m.kv {
 		c.kv[k] = v
 	}
@@ -51,6 +52,10 @@ func zzApplyOp(l *SimpleLedger, m *zzModel, nOps int) {
 		l.AddState(zzAddrs[0], []byte("a"), v)
 		m.kv["a"] = v
 	case 6:
+		c := []byte{zz.U8("code")}
+		l.SetCode(zzAddrs[1], c)
+		m.code = c
+	case 7:
 		// touch without change
 		_, _ = l.GetState(zzAddrs[0], []byte("ab"))
 		_ = l.GetBalance(zzAddrs[1])
@@ -70,6 +75,11 @@ func zzMatches(l *SimpleLedger, m zzModel) bool {
 	}
 	res = zz.And(res, l.GetBalance(zzAddrs[1]).Cmp(new(big.Int).SetUint64(m.bal)) == 0)
 	res = zz.And(res, l.GetNonce(zzAddrs[1]) == m.nonce)
+	if c := l.GetCode(zzAddrs[1]); m.code == nil {
+		res = zz.And(res, c == nil)
+	} else {
+		res = zz.And(res, zz.EqBytes(c, m.code))
+	}
 	return res
 }
 
@@ -82,18 +92,21 @@ func ZZH_C12_rollback() {
 	cache, _ := NewAccountCache()
 	l := zzNewLedger(store, cache)
 	B := 2
-	nOps := 6
+	nOps := 7
 	if zz.Thorough() {
 		B = 3
-		nOps = 7
+		nOps = 8
 	}
 	m := zzModel{kv: map[string][]byte{}}
 	models := []zzModel{m.clone()}
 	roots := []*types.Hash{{}}
 	for b := 1; b <= B; b++ {
 		zzApplyOp(l, &m, nOps)
-		if zz.Choice("second", 2) == 1 {
-			zzApplyOp(l, &m, nOps)
+		if b == 1 || zz.Thorough() {
+			// quick: two operations in the first block, one in the others
+			if zz.Choice("second", 2) == 1 {
+				zzApplyOp(l, &m, nOps)
+			}
 		}
 		roots = append(roots, zzCommit(l, uint64(b)))
 		models = append(models, m.clone())
@@ -106,6 +119,12 @@ func ZZH_C12_rollback() {
 	zz.Assert("C12.state-restored", zzMatches(l, models[t]))
 	zz.Assert("C12.version", l.Version() == uint64(t))
 	zz.Assert("C12.root-chain", zz.EqBytes(l.prevJnlHash.Bytes(), roots[t].Bytes()))
+	// a different continuation after the rollback: one more block on the same ledger instance
+	cont := models[t].clone()
+	zzApplyOp(l, &cont, 5)
+	zzCommit(l, uint64(t)+1)
+	zz.Assert("C12.continuation-reads", zzMatches(l, cont))
+	_ = l.RollbackState(uint64(t))
 	// reopened ledger reads the database only
 	cache2, _ := NewAccountCache()
 	l2 := zzNewLedger(store, cache2)
